@@ -113,6 +113,18 @@ func main() {
 		n, _ := strconv.Atoi(os.Args[3])
 		out := runWorker(spec, "quick", seedEnv(), 0, 1, n)
 		fmt.Printf("%s runs=%d evals=%d steps=%d violations=%d\n", out.Digest, out.Runs, out.Cov.Evaluations, out.Cov.Steps, len(out.Violations))
+	case "racestage":
+		f := props.RaceStages[os.Args[2]]
+		if f == nil {
+			die(2, "no race stage for %s", os.Args[2])
+		}
+		seed, _ := strconv.ParseUint(os.Args[3], 10, 64)
+		rounds, _ := strconv.Atoi(os.Args[4])
+		vs := f(seed, rounds)
+		if len(vs) > 0 {
+			json.NewEncoder(os.Stdout).Encode(vs)
+			os.Exit(1)
+		}
 	case "replay":
 		if len(os.Args) != 3 {
 			die(2, "usage: vcheck replay <file>")
@@ -386,6 +398,16 @@ func report(spec *props.Spec, v *props.Violation, dir string, seed uint64, known
 	}
 	min := v.Case
 	msg := v.Msg
+	if v.Case.Mode == "free-running" {
+		// uncontrolled schedule: the witness is the stored report; no shrinking,
+		// no exact replay is claimed
+		name := fmt.Sprintf("%s-%d-free-running.json", spec.ID, seed)
+		path := filepath.Join(dir, "replays", name)
+		rf := replayFile{Property: spec.ID, Clause: v.Clause, Message: msg, Deterministic: false, Seed: seed, Case: v.Case, ReplayCmd: "/verif/run.sh replay " + path}
+		b, _ := json.MarshalIndent(rf, "", " ")
+		os.WriteFile(path, b, 0o644)
+		return path, 0
+	}
 	if !still(v.Case) {
 		fmt.Fprintf(os.Stderr, "INFRASTRUCTURE: violation %s does not reproduce in-process from its materialised case (simulator determinism bug)\n", v.Clause)
 		return "", 2
@@ -394,7 +416,11 @@ func report(spec *props.Spec, v *props.Violation, dir string, seed uint64, known
 	if budget == 0 {
 		budget = 1500
 	}
-	min = props.Shrink(v.Case, still, budget)
+	if spec.Shrink != nil {
+		min = spec.Shrink(v.Case, still, budget)
+	} else {
+		min = props.Shrink(v.Case, still, budget)
+	}
 	for _, x := range spec.Check(min, props.NewCov()) {
 		if x.Clause == v.Clause {
 			msg = x.Msg
